@@ -36,6 +36,7 @@ type typ struct {
 	sd     *structDesc // kStruct
 	ptr    bool        // kStruct: pointer to struct
 	bigVal bool        // kZ: big.Int as a value type (type PrivKeyScalar big.Int)
+	iface  bool        // kSlice: an interface result (driver.Value) that is given a []byte
 }
 
 type structDesc struct {
@@ -174,7 +175,10 @@ func (p *pkg) resolveType(e ast.Expr) *typ {
 			return tBigVal
 		}
 		if isSel(e, "utils", "Hex") {
-			return tSlice
+			return &typ{k: kSlice, name: "Hex", pkg: "utils"}
+		}
+		if isSel(e, "driver", "Value") { // database/sql/driver.Value: the methods return a []byte
+			return &typ{k: kSlice, iface: true}
 		}
 	case *ast.Ident:
 		switch e.Name {
